@@ -38,7 +38,15 @@ def load_known(pid: str) -> list[dict]:
     for path in paths:
         if not path.exists():
             continue
-        data = json.loads(path.read_text())
+        data = None
+        for _ in range(5):  # a fragment may be mid-rewrite while checks of other properties run
+            try:
+                data = json.loads(path.read_text())
+                break
+            except (json.JSONDecodeError, OSError):
+                time.sleep(0.2)
+        if data is None:
+            raise HarnessError(f"cannot parse {path}")
         for f in data.get("findings", []):
             if f.get("property") == pid and f.get("status") == "known" and f["kind"] not in {o["kind"] for o in out}:
                 out.append(f)
